@@ -9,8 +9,8 @@ LEVEL_TEXT = ('ResurrectorSink is verified against the invariant "while the down
               'the retry loop keeps its wait between the initial and the maximum interval and proves each new wait >= the previous one (growing, capped back-off), makes one connect attempt per iteration, '
               'and on success installs the fresh sink and clears the down mark; Close kills the retry greenlet and clears the mark. The balancer side (a down-marked member whose channel reads Open is restored on the next dispatch) is C03\'s __Get.'
               ' Every outage (the first and each later one) starts exactly one retry loop (ghost spawn counter), the fault handler is unsubscribed from the sink that died, and Close unsubscribes it from the sink it closes (ghost subscription count on the underlying observable), so a fault still on its way after Close cannot start a retry loop.')
-LEVEL_NOTE = ('Trusted: pyvc encoding (reals), z3; of x**e only: positive for positive x, and x**e > x for x > 1, e > 1; gevent.sleep / AsyncResult.get are the only scheduling points; Greenlet.kill stops the loop at its next yield, '
-              'so no connect attempt follows Close. Not proved: "resumes within one maximum retry interval" (a timed liveness statement over the fault history). Stated configuration range: initial wait > 1, exponent > 1, max >= initial (the defaults 5 / 1.2 / 60).')
-ASSUMPTIONS = ['initial_wait_interval > 1, backoff_exponent > 1, max_wait_interval >= initial (outside it the back-off would not grow)', 'kill prevents any statement after the current yield']
+LEVEL_NOTE = ('Trusted: pyvc encoding (reals), z3; of x**e only: positive for positive x, and x**e > x for x > 1, e > 1; gevent.sleep / AsyncResult.get are the only scheduling points; Greenlet.kill raises GreenletExit at the loop\'s current yield (the sleep or the wait for the connect) and the loop is proved never to enter its close-and-retry handler with it, '
+              'so no connect attempt follows Close. The balancer side of "used again" (HeapBalancerSink.__Get unlinks a recovered member from the down list and keeps every other down member on it) is checked here with the C03 contract. Not proved: "resumes within one maximum retry interval" (a timed liveness statement over the fault history). Stated configuration range: initial wait > 1, exponent > 1, max >= initial (the defaults 5 / 1.2 / 60).')
+ASSUMPTIONS = ['initial_wait_interval > 1, backoff_exponent > 1, max_wait_interval >= initial (outside it the back-off would not grow)', 'kill surfaces as GreenletExit at the current yield (gevent.sleep or AsyncResult.get)']
 TRUSTED = []
 BOUNDED = []
